@@ -4,6 +4,12 @@ using namespace wc;
 #ifndef VK_STEPS
 #define VK_STEPS 6
 #endif
+#ifndef VK_RECONNECTS
+#define VK_RECONNECTS 2
+#endif
+#ifndef VK_REFUSALS
+#define VK_REFUSALS 1
+#endif
 
 struct X {
   W w; int nsub = 0; int nreconn = 0; int nmsg = 0;
@@ -40,14 +46,19 @@ extern "C" void h_session(void) {
                 if (x->nsub >= 2 || !w.connected()) vk_assume(0); x->nsub++;
                 int op = w.subscribe({{"f", subscribe_options{}}}); vk::drain();
                 auto* s = vk::pending_write(); vk_assert(s != nullptr, "SUBSCRIBE write"); w.finish_write(s, s->wdata.size(), {}); vk::drain();
-                const pkt_rec* p = w.last_of(ref::SUBSCRIBE); uint8_t code = vk_sym_u8(); vk_assume(code <= 2 || code == 0x80 || code == 0x87);
+                const pkt_rec* p = w.last_of(ref::SUBSCRIBE); static const uint8_t codes[] = {0x00, 0x02, 0x80, 0x87}; uint8_t code = codes[vk_choose(4)];
                 w.suback(ref::SUBACK, p->pid, &code, 1); w.feed_all(); vk::drain();
                 vk_assert(w.ops[op].done == 1 && w.ops[op].ec == 0, "subscribe completes");
                 if (code <= 2) { x->sub_since_report = true; vk_reach("subscribed"); } else vk_reach("subscription-refused");
                 break; }
       case 1: { // connection loss, reconnect with Session Present b
-                if (x->nreconn >= 3 || !w.connected()) vk_assume(0); x->nreconn++;
+                if (x->nreconn >= VK_RECONNECTS || !w.connected()) vk_assume(0); x->nreconn++;
                 w.drop_connection(); vk::drain(); bool ok2 = w.establish(); vk_assert(ok2, "client reconnects");
+                // the broker may first refuse the CONNECT once or twice (CONNACK with a failure code always has Session Present 0)
+                for (int refusals = (int)vk_choose(VK_REFUSALS + 1); refusals > 0; refusals--) {
+                  w.send_connack(false, 0x88, nullptr, 0); w.feed_all(); vk::drain();
+                  bool ok3 = w.establish(); vk_assert(ok3, "client tries again after a refused CONNECT"); vk_reach("connect-refused");
+                }
                 bool sp = vk_choose(2);
                 if (!sp && x->sub_since_report) { x->expected_reports++; x->sub_since_report = false; vk_reach("session-lost-with-subscription"); }
                 else if (!sp) vk_reach("session-lost-without-subscription");
